@@ -34,6 +34,7 @@ PLAN = [
     ("meta", 14, 160, 14, 40),
     ("eabf", 6, 60, 12, 40),
     ("histrestraint", 3, 30, 10, 30),
+    ("multi", 4, 40, 10, 30),
     ("runave", 2, 10, 10, 20),
     ("alb", 2, 10, 10, 20),
     ("opes", 4, 30, 12, 24),
